@@ -125,6 +125,12 @@ def rules(ctx, db):
                         r = d[3]["r"]
                         if r.get("k") == "agg" and r.get("var") == "Pending":
                             continue
+                        if r.get("k") == "agg" and r.get("var") == "Ready" and r.get("ops"):
+                            # Ready(Err(e)): an error of the shutdown call handed on (match-style spelling of `?`)
+                            q = op_place(r["ops"][0])
+                            if q is not None and all(d2[0] == "assign" and d2[3]["r"].get("k") == "agg" and d2[3]["r"].get("var") == "Err"
+                                                     for d2 in f.cfg.defs.get(q["l"], [])) and f.cfg.defs.get(q["l"]):
+                                continue
                         ok = False
                         detail = "poll_close builds a result (e.g. Ready) that does not come from the transport flush"
             else:
